@@ -113,10 +113,11 @@ Silent ==
 
 Spurious ==
   /\ LooseEnv /\ l' = l /\ UNCHANGED <<pfs, pend>>
-  /\ \E w \in Wids, d \in D, n \in Names \cup {"."}, o \in {"create", "write", "remove", "rename"} :
-        /\ wstate[w] = "open" /\ infl[w] = NoEv
-        /\ infl' = [infl EXCEPT ![w] = [op |-> o, d |-> d, n |-> n]]
-        /\ UNCHANGED <<exists, gen, files, away, cur, auto, cdirs, wstate, tracked, watches, kq, ub, gor, errs, idx, short, fsops, confs, obs, hist>>
+  \* (only what the trace says was received next: anything else would not help and costs states)
+  /\ l <= Len(Trace) /\ TEv.ev = "recv" /\ TEv.w \in Wids
+  /\ infl[TEv.w] = NoEv /\ gor[TEv.w].pc = "recv"
+  /\ infl' = [infl EXCEPT ![TEv.w] = [op |-> TEv.op, d |-> TEv.d, n |-> TEv.n]]
+  /\ UNCHANGED <<exists, gen, files, away, cur, auto, cdirs, wstate, tracked, watches, kq, ub, gor, errs, idx, short, fsops, confs, obs, hist>>
 
 TraceNext == Spurious \/ FsBegin \/ FsApply \/ FsApplyHalf \/ FsApplyRest \/ FsEnd \/ RecvStep \/ UpdatedStep \/ ScannedStep \/ HandledStep \/ OpStep \/ ConfiguredStep \/ Silent
 TraceSpec == TraceInit /\ [][TraceNext]_tvars
